@@ -125,12 +125,22 @@ def enum_crashes(seed):
             return f
     mode_eio = [0]
     try:
-        for s in range(15):
+        for s in range(18):
             rnd = random.Random(seed * 1000 + s)
             names = rnd.sample(c18.NAMES, 4)
             src = os.path.join(scratch, f"s{s}")
             if s < 12:
                 c18._build(rnd, src, names)
+            elif s >= 15:
+                # files whose content is byte for byte what the root already holds under those names, with other owners / modes / times
+                names = ["a", "b", "d1/a"]
+                os.makedirs(os.path.join(src, "d1"))
+                for i_, n in enumerate(names):
+                    fp = os.path.join(src, n)
+                    open(fp, "w").write(f"same content {n}")
+                    os.chown(fp, 1234 + s, 77)
+                    os.chmod(fp, (0o700, 0o4711, 0o640)[i_])
+                    os.utime(fp, (1500 + i_ + s,) * 2)
             else:
                 # a hardlink group of three names in the package, merged over regular files of the same names
                 names = ["a", "b", "d1/a", "x y"][: 3 + s % 2]
@@ -147,7 +157,8 @@ def enum_crashes(seed):
                 else:
                     os.makedirs(os.path.join(root, "d1"))
                     for n in names:
-                        open(os.path.join(root, n), "w").write(f"old {n}")
+                        open(os.path.join(root, n), "w").write(f"same content {n}" if s >= 15 else f"old {n}")
+                        os.utime(os.path.join(root, n), (900,) * 2)
                 os.makedirs(root, exist_ok=True)
                 # pre-existing files that are hardlinked from elsewhere on the root (st_nlink > 1): replacing them must be just as atomic
                 r2 = random.Random(seed * 31 + s)
@@ -201,7 +212,7 @@ def enum_crashes(seed):
                 stop += 1
     finally:
         shutil.rmtree(scratch, ignore_errors=True)
-    return {"name": "C19.interrupted_merges.bounded_enumeration", "bound": "12 seeded trees of 4 entries merged over roots holding 3 of the same names and 3 hardlink groups of three names merged over regular files, pre-existing files partly hardlinked from elsewhere on the root; the merge stopped dead before every os call in turn and, in a second pass, every os call in turn failing with EIO "
+    return {"name": "C19.interrupted_merges.bounded_enumeration", "bound": "12 seeded trees of 4 entries merged over roots holding 3 of the same names, 3 hardlink groups of three names merged over regular files, and 3 sets of files merged over files of identical content but other owner / mode / time; pre-existing files partly hardlinked from elsewhere on the root; the merge stopped dead before every os call in turn and, in a second pass, every os call in turn failing with EIO "
             "(lchown, chmod, utime, mkdir, symlink, mkfifo, mknod, rename, link, unlink, rmdir); each pre-existing non-directory compared with its old and its complete new state", "cases": cases, "failures": fails}
 
 
